@@ -1,1 +1,2 @@
+import OsyrisProofs.C06
 import OsyrisProofs.C20
